@@ -167,6 +167,17 @@ func anchorScenario(o anchorOpts) *Scenario {
 			regAct(model.BcnReg, "O", []string{long(65), "n"}, maxEnts),
 			regAct(model.BcnReg, "O", []string{"", "n"}, maxEnts),
 		)
+		// a registration and a record on the identifier it is about to get, in a transaction whose last
+		// message fails: nothing of it may survive, the identifier goes to the next registrant
+		failSend := model.Msg{Kind: model.BankSend, From: "W1", To: model.ModStr, Den: mc.Nund, Amt: "1"}
+		add(
+			Action{Name: "breg+brec(next)+fail(W1)", Dt: time.Millisecond, Txs: func(m *model.State) []model.Tx {
+				return []model.Tx{{Msgs: []model.Msg{{Kind: model.BcnReg, From: "W1", S: bIdent("x")}, {Kind: model.BcnRec, From: "W1", ID: m.Bcn.NextID, S: []string{"0xrolled-back"}, T: 1_600_000_000}, failSend}, Fee: fee(m.Bcn.P.FeeReg + m.Bcn.P.FeeRec)}}
+			}, Enabled: func(m *model.State, _ map[string]int) bool { return len(m.Bcn.Ents) < maxEnts }},
+			Action{Name: "wreg+wrec(next)+fail(W1)", Dt: time.Millisecond, Txs: func(m *model.State) []model.Tx {
+				return []model.Tx{{Msgs: []model.Msg{{Kind: model.WrkReg, From: "W1", S: wIdent("x")}, {Kind: model.WrkRec, From: "W1", ID: m.Wrk.NextID, H: 1, S: []string{"0xrolled-back", "", "", "", ""}}, failSend}, Fee: fee(m.Wrk.P.FeeReg + m.Wrk.P.FeeRec)}}
+			}, Enabled: func(m *model.State, _ map[string]int) bool { return len(m.Wrk.Ents) < maxEnts }},
+		)
 		for _, sg := range []string{"W1", "W2", "O"} {
 			for _, id := range []uint64{1, 2, 3, 7} {
 				add(wrecAct(fmt.Sprintf("wrec(%s,#%d,next)", sg, id), sg, id, next))
